@@ -113,6 +113,28 @@ Proof.
   replace (off + blen c1 + blen c2) with (off + (blen c1 + blen c2)) by lia. reflexivity.
 Qed.
 
+Lemma take_drop_write_at_before f off data p n : off <= blen f -> p + n <= off ->
+  take n (drop p (write_at f off data)) = take n (drop p f).
+Proof.
+  intros Hoff Hpn. rewrite write_at_inb by exact Hoff.
+  assert (Hl : blen (take off f) = off) by (rewrite blen_take; lia).
+  rewrite drop_app_le by lia. rewrite take_app_le by (rewrite blen_drop; lia).
+  symmetry. rewrite <- (take_drop_id off f) at 1.
+  rewrite drop_app_le by lia. rewrite take_app_le by (rewrite blen_drop; lia). reflexivity.
+Qed.
+
+Lemma drop_write_at_at f off data : off <= blen f ->
+  drop off (write_at f off data) = data ++ drop (off + blen data) f.
+Proof.
+  intros Hoff. rewrite write_at_inb by exact Hoff.
+  assert (Hl : blen (take off f) = off) by (rewrite blen_take; lia).
+  rewrite <- Hl at 1. apply drop_app.
+Qed.
+
+(* the destination path is only a way to reach a file: every alias of the source is the source *)
+Lemma resolve_alias p : (forall d, p <> POther d) -> resolve_dest p = DSame.
+Proof. destruct p; intros H; try reflexivity. exfalso. exact (H d eq_refl). Qed.
+
 (* ---- the CARv2 header ------------------------------------------------------------------------ *)
 Lemma le_dec_lt (bs : bytes) : le_dec bs < 256 ^ blen bs.
 Proof.
